@@ -1,0 +1,43 @@
+//go:build verif
+
+package faucetsc
+
+// Machine-checked contracts for /verif/govc (contract-based deductive verification).
+// This file contains comments only; it is compiled only with -tags verif and adds no code.
+
+// ---------------------------------------------------------------- faucet limits (C17)
+
+//@ spec asked(t *transaction.Transaction, gn *GlobalNode) int = (t.Value > 0 && t.Value < gn.MaxPourAmount ? t.Value : gn.PourAmount)
+
+//@ func pourAmount
+//@   prop C17
+//@   requires t != nil && gn != nil && gn.FaucetConfig != nil
+//@   ensures result == asked(t, gn)
+//@   modifies nothing
+
+// A request is valid only if pouring the amount it asks for stays within the faucet balance
+// and within both limits.
+//@ func (*UserNode).validPourRequest
+//@   prop C17
+//@   requires un != nil && gn != nil && t != nil && gn.FaucetConfig != nil
+//@   ensures result0 ==> result1 == nil
+//@   ensures !result0 ==> result1 != nil
+//@   ensures result0 ==> asked(t, gn) <= $bal[gn.ID]
+//@   ensures result0 ==> asked(t, gn) + un.Used <= gn.PeriodicLimit
+//@   ensures result0 ==> asked(t, gn) + gn.Used <= gn.GlobalLimit
+//@   modifies nothing
+
+// Every token that leaves the faucet wallet is within the balance and both limits at the moment
+// the transfer is queued, goes from the faucet to the requesting client, and is accounted in
+// the per-client and global counters, which are then persisted.
+//@ func (*FaucetSmartContract).pour
+//@   prop C17
+//@   requires fc != nil && t != nil && gn != nil && gn.FaucetConfig != nil
+//@   at-call AddTransfer assert transfer.ClientID == t.ToClientID && transfer.ToClientID == t.ClientID
+//@   at-call AddTransfer assert[balance] transfer.Amount <= $bal[gn.ID]
+//@   at-call AddTransfer assert[periodic-limit] transfer.Amount + user.Used <= gn.PeriodicLimit
+//@   at-call AddTransfer assert[global-limit] transfer.Amount + gn.Used <= gn.GlobalLimit
+//@   ensures result1 == nil ==> $ntr == old($ntr) + 1 && $nsaved == old($nsaved) + 2
+//@   ensures result1 == nil ==> gn.Used == old(gn.Used) + asked(t, gn) && gn.Used <= gn.GlobalLimit
+//@   ensures result1 == nil ==> $saved[globalNodeKey] == obj(gn)
+//@   ensures result1 != nil ==> $ntr <= old($ntr) + 1
